@@ -297,12 +297,20 @@ func (c *Ctx) elkNames() map[types.Object]string {
 				if !ok {
 					return true
 				}
-				// Ref(Y) / value.Ref(Y)
+				// Ref(Y) / value.Ref(Y) / Y.ToValue()
 				rc, ok := ast.Unparen(call.Args[1]).(*ast.CallExpr)
-				if !ok || len(rc.Args) != 1 || FuncID(Callee(info, rc)) != "value.Ref" {
+				if !ok {
 					return true
 				}
-				obj := exprObj(info, rc.Args[0])
+				var inner ast.Expr
+				if len(rc.Args) == 1 && FuncID(Callee(info, rc)) == "value.Ref" {
+					inner = rc.Args[0]
+				} else if rsel, ok := rc.Fun.(*ast.SelectorExpr); ok && len(rc.Args) == 0 && rsel.Sel.Name == "ToValue" {
+					inner = rsel.X
+				} else {
+					return true
+				}
+				obj := exprObj(info, inner)
 				if obj == nil {
 					return true
 				}
